@@ -18,7 +18,7 @@ LEVEL_TEXT = ("Coq theorems over an exact-rational model of the four from_gmat e
               "frequencies are not compared loosely) for every class, factory, format and argument form, on genotype matrices obtained through the library's "
               "own routes (copies, select_taxa, mat setter, in-place update after warm-up calls, grouping); the kernel expressions of the four from_gmat "
               "estimators, of the argument range checks, of every kinship halving, of min_inbreeding / inverse / is_positive_semidefinite and the label / "
-              "factory wiring are regenerated from the source on every run (Gen/C13_Kernel.v), the estimators assembled from them are proved Leibniz-equal to "
+              "factory wiring are regenerated from the source on every run (Gen/C13_Kernel.v; the label table shows every from_gmat handing copies of the six label arrays: C13_labels_copied), the estimators assembled from them are proved Leibniz-equal to "
               "the hand model and the theorems are restated about them; Yang's square-root scaling is proved equal (over the reals) to the rational closed "
               "form; an implementation-level lifecycle check (copies equal and independent, relationship-side select_taxa, multi-call sessions with in-place "
               "and setter updates equal to a fresh object in the same state, aliasing with the source, every public entry point classified by introspection)")
@@ -1019,11 +1019,9 @@ def describe(case, out):
             "selection": "perm" if sorted(case["sel"]) == list(range(n)) else ("repeats" if len(set(case["sel"])) < len(case["sel"]) else "subset")}
 
 def classify(case, out, clauses):
-    """VanRaden / Yang hand `gmat.taxa`, `gmat.taxa_grp` and the group metadata to the new object without copying (the molecular
-    and weighted classes copy): the only clause may be the sharing one, on exactly these two estimators"""
-    if case.get("audit"): return None
-    if case.get("est") in ("vr", "yang") and clauses and all(c.startswith("from_gmat shares mutable label arrays with the genotype matrix") for c in clauses):
-        return "C13-vr-yang-share-label-arrays"
+    """no known finding is left for C13: every failing clause is a violation.  (Formerly the VanRaden / Yang from_gmat shared the
+    label arrays of the genotype matrix, finding C13-vr-yang-share-label-arrays; repaired in the library, so the sharing clause of
+    `_pred_lifecycle` is an ordinary violation for every estimator; its witness in known_findings.d/C13.json is re-run on every check.)"""
     return None
 
 def shrink(case, fails):
